@@ -7,6 +7,7 @@
 #      must be rejected, accepted text must be read as the machine reads it, the position must lie
 #      within the text, nothing else may escape.  Seeded random strings and scalar tokens too.
 import json
+import sys
 import multiprocessing
 import random
 import signal
@@ -147,7 +148,19 @@ def _timed(fn):
     return run_
 
 
+class _NoStdout(object):
+    """a standard stream that cannot take a write (a closed pipe, a full disk): reading ZINC text does not depend on it"""
+    encoding = 'ascii'
+
+    def write(self, text):
+        raise OSError('standard stream is not writable')
+
+    def flush(self):
+        pass
+
+
 def _init():
+    sys.stdout = _NoStdout()
     hs = use_repo()
     _W['hs'] = hs
     _W['A'] = absval.Abs(hs)
@@ -331,11 +344,19 @@ def run(tier):
         okz = [c for c in cases if c['k'] == 'outcome' and c['out'] == 'zpe' and verdicts[c['id']][0] == 'OK'
                and c['text'][:4] != [118, 101, 114, 58]]
         if okz:
-            c0 = json.loads(json.dumps(okz[0])); c0['id'] = 1
-            c1 = json.loads(json.dumps(okz[0])); c1['id'] = 2; c1['out'] = 'grid'; c1['abs'] = []; c1['single'] = False
-            v2 = zinccodec.judge_cases(rep, work, [c0, c1], 'c09self', shards=1)
-            ok = v2[1][0] == 'OK' and v2[2][0] == 'REJECT'
-            rep.extra['binding_selftest'] = {'ok': ok, 'verdicts': [list(v2[1]), list(v2[2])]}
+            # (a relabelled case is only a NOTE when the machine refuses the text for a non-structural reason, where
+            # either outcome is allowed: several candidates, one of them at least must turn into a rejection)
+            pick = okz[:8]
+            sc = []
+            for j, o in enumerate(pick):
+                c0 = json.loads(json.dumps(o)); c0['id'] = 2 * j + 1
+                c1 = json.loads(json.dumps(o)); c1['id'] = 2 * j + 2; c1['out'] = 'grid'; c1['abs'] = []; c1['single'] = False
+                sc += [c0, c1]
+            v2 = zinccodec.judge_cases(rep, work, sc, 'c09self', shards=1)
+            ok = all(v2[2 * j + 1][0] == 'OK' for j in range(len(pick))) and \
+                any(v2[2 * j + 2][0] == 'REJECT' for j in range(len(pick)))
+            rep.extra['binding_selftest'] = {'ok': ok, 'candidates': len(pick),
+                                             'rejected_when_relabelled': sum(1 for j in range(len(pick)) if v2[2 * j + 2][0] == 'REJECT')}
             if not ok:
                 raise MachineryError('binding self-test failed: %r' % (v2,))
     rep.exhaustive = True
